@@ -163,3 +163,51 @@ impl From<TryFromSliceError> for VaultError { fn from(e: TryFromSliceError) -> (
 
 /// sos_vault::Vault — here only the namespace of `commit_hash`
 pub struct Vault { pub _p: () }
+/// sos_vault::Contents — here only the namespace of `encode_row`
+pub struct Contents { pub _p: () }
+
+// ---- stand-ins that name types extracted in the unit (UtcDateTime) -----------------------------
+/// stand-ins used only by `SecretRow::new`: RFC 3339 text of a time stamp
+/// (crates/core/src/date_time.rs:105, time-0.3 formatting) and the hyphenated
+/// text of a uuid (uuid-1.x `Display`), which `str::parse::<Uuid>` reads back.
+impl UtcDateTime {
+    #[verifier::external_body]
+    pub fn to_rfc3339(&self) -> (r: CoreResult<String>) { unimplemented!() }
+}
+pub trait UuidToString { fn to_string(&self) -> String; }
+impl UuidToString for Uuid {
+    #[verifier::external_body]
+    fn to_string(&self) -> (r: String)
+        ensures uuid_of_str(r@) == Some(self.0@),
+    { unimplemented!() }
+}
+/// R12: `$a.to_vec()` for `$a: &[u8; 32]` (alloc::slice::to_vec)
+#[verifier::external_body]
+pub fn arr32_to_vec(a: &[u8; 32]) -> (r: Vec<u8>)
+    ensures r@ == a@,
+{ a.to_vec() }
+pub type DbResult<T> = core::result::Result<T, DbError>;
+impl FromSpecImpl<CoreError> for DbError {
+    open spec fn obeys_from_spec() -> bool { true }
+    open spec fn from_spec(e: CoreError) -> DbError { DbError { _p: () } }
+}
+impl From<CoreError> for DbError { fn from(e: CoreError) -> (r: DbError) { DbError { _p: () } } }
+
+
+/// uuid-1.x `Uuid::from_slice`: exactly 16 bytes
+pub trait UuidFromSlice: Sized { fn from_slice(b: &[u8]) -> core::result::Result<Self, UuidError>; }
+impl UuidFromSlice for Uuid {
+    #[verifier::external_body]
+    fn from_slice(b: &[u8]) -> (r: core::result::Result<Uuid, UuidError>)
+        ensures r is Ok <==> b@.len() == 16, r is Ok ==> r->Ok_0.0@ == b@,
+    { unimplemented!() }
+}
+
+/// sos_backend::Error (opaque): the item error of `record_stream`
+#[derive(Debug)]
+pub struct BackendError { pub _p: () }
+impl From<BackendError> for IntegrityError {
+    #[verifier::external_body]
+    fn from(e: BackendError) -> (r: IntegrityError) { unimplemented!() }
+}
+
